@@ -392,7 +392,7 @@ package beacon
 //@ func SyncChain(l, store, req, stream) (err)
 //@   props C11
 //@   flags interleaved
-//@   requires ref(stream) == theStream() && ref(store) == theStore() && l != nil
+//@   requires [C11] ref(stream) == theStream() && ref(store) == theStore() && l != nil
 //@   rely grows stored(theStore())
 //@   call AddCallback#0: assert [C11:the-head-seen-when-the-stream-started-was-delivered-before-going-live] fromRound != 0 ==> sent(theStream(), last.Round)
 //@   call AddCallback#0: assert [C11:no-stored-round-is-skipped-between-catch-up-and-live-delivery] fromRound != 0 ==> (forall r int :: fromRound <= r && stored(theStore(), r) ==> sent(theStream(), r))
